@@ -250,6 +250,10 @@ def session(ctx, side="server", k=4, first=()):
                 state["a_task"].cancel()
         else:
             advance(op[1])
+        # the next event may fall into the same loop iteration (nothing that became ready has run yet)
+        if op[0] != "advance" and i + 1 < k and ctx.flag(f"same_iteration{i}"):
+            trace[-1].append("no-tick")
+            continue
         loop.run_ready()
         peer_autopong()
         loop.run_ready()
@@ -287,17 +291,27 @@ def session(ctx, side="server", k=4, first=()):
         return fail("transport-open-after-session-closed")
     # close code: peer's code on a clean handshake, 1006 on abnormal ends
     cc = ws.close_code
-    sig = [tuple(t) for t in trace if t[0] == "peer" and t[1] != "text" and t[1] != "ping" or t[0] == "app" and t[1] != "send"]
-    cancelled = ("app", "cancel-receiver") in [tuple(t) for t in trace]
-    unresponsive = ("peer", "unresponsive") in [tuple(t) for t in trace]
+    trace2 = [t[:2] for t in trace]
+    sig = [tuple(t) for t in trace2 if t[0] == "peer" and t[1] != "text" and t[1] != "ping" or t[0] == "app" and t[1] != "send"]
+    cancelled = ("app", "cancel-receiver") in [tuple(t) for t in trace2]
+    unresponsive = ("peer", "unresponsive") in [tuple(t) for t in trace2]
     if sig and sig[0][0] == "peer" and sig[0][1].startswith("close") and not cancelled and not unresponsive:
         # the first significant event was the peer's close frame on a live session
-        if cc != int(sig[0][1][5:]):
+        # (a peer that drops the connection in the same loop iteration as its close frame never
+        # took our echo: that end may be reported as abnormal)
+        j = [t[:2] for t in trace].index(list(sig[0]))
+        dropped_at_once = False
+        for t in trace[j:]:
+            if t[:2] == ["peer", "drop"]:
+                dropped_at_once = True
+            if "no-tick" not in t:
+                break
+        if cc != int(sig[0][1][5:]) and not (dropped_at_once and cc == 1006):
             return fail("close-code-differs-from-peer-code", close_code=cc)
     peer_closed_ever = any(t[0] == "peer" and t[1].startswith("close") for t in trace)
-    garbage = ("peer", "garbage") in [tuple(t) for t in trace]
+    garbage = ("peer", "garbage") in [tuple(t) for t in trace2]
     if not peer_closed_ever and not garbage and not cancelled and cc not in (1006,):
-        app_closed = ("app", "close") in [tuple(t) for t in trace]
+        app_closed = ("app", "close") in [tuple(t) for t in trace2]
         got_closing = any(r[0] == 256 for r in state["received"])
         if app_closed and got_closing and cc == 1000:
             return fail("close-racing-receive-reports-1000-without-peer-close", close_code=cc)
